@@ -4,10 +4,11 @@ From BFG Require Import Base.Chars Find.Glob Find.Filter.
 Local Open Scope N_scope.
 
 (* children are in os.listdir order; [link] = the directory entry is a symbolic link (to a directory) *)
-Inductive tree := File (n : str) | Dir (n : str) (link : bool) (ch : list tree).
+(* [broken] = a dangling symbolic link: listed by its parent, but path.exists is false for it *)
+Inductive tree := File (n : str) (broken : bool) | Dir (n : str) (link : bool) (ch : list tree).
 
-Definition tname (t : tree) : str := match t with File n => n | Dir n _ _ => n end.
-Definition is_dirt (t : tree) : bool := match t with Dir _ _ _ => true | File _ => false end.
+Definition tname (t : tree) : str := match t with File n _ => n | Dir n _ _ => n end.
+Definition is_dirt (t : tree) : bool := match t with Dir _ _ _ => true | File _ _ => false end.
 
 Definition child (p : path) (n : str) (d : bool) : path := mkpath (p_root p) (p_comps p ++ [n]) d.
 Definition tpath (p : path) (t : tree) : path := child p (tname t) (is_dirt t).
@@ -21,7 +22,7 @@ Definition level (m : path -> fres) (p : path) (ch : list tree) : list (path * f
    the consumer deleted from the list; symbolic links are listed but not followed *)
 Fixpoint walk_tree (prune : path -> bool) (m : path -> fres) (p : path) (t : tree) : list (path * fres) :=
   match t with
-  | File _ => []
+  | File _ _ => []
   | Dir n link sub =>
       let q := child p n true in
       if link || prune q then [] else level m q sub ++ flat_map (walk_tree prune m q) sub
@@ -32,7 +33,7 @@ Definition walk_top (prune : path -> bool) (m : path -> fres) (p : path) (ch : l
 
 Fixpoint seen_tree (prune : path -> bool) (p : path) (t : tree) : list path :=
   match t with
-  | File _ => []
+  | File _ _ => []
   | Dir n link sub =>
       let q := child p n true in
       if link || prune q then [] else q :: flat_map (seen_tree prune q) sub
@@ -74,7 +75,7 @@ Fixpoint lookup (ch : list tree) (comps : list str) : option (list tree) :=
   | c :: r =>
       match find_child c ch with
       | Some (Dir _ _ sub) => lookup sub r
-      | Some (File _) => match r with [] => Some [] | _ :: _ => None end
+      | Some (File _ broken) => match r with [] => if broken then None else Some [] | _ :: _ => None end
       | None => None
       end
   end.
